@@ -3,6 +3,7 @@ package c02
 
 import (
 	"fmt"
+	"github.com/google/safehtml/template"
 	"html"
 	"net/url"
 	"regexp"
@@ -326,6 +327,8 @@ var codeShapes = []string{
 	`{{define "h"}}type="b"{{end}}<script type="b" {{template "h"}}></script>{{if .C}}<script type="text/plain" {{template "h"}}>{{else}}<script type="b">{{end}}{{.V}}</script>`,
 	// K-mangle: a helper with an action, called inside the still open rel value of two links
 	`{{define "hq"}}" href="{{.V}}{{end}}<link rel="icon{{template "hq" .}}"><link rel="stylesheet{{template "hq" .}}">`,
+	// "/" and "=" in an end tag: what the engine reads as a quoted value is not one for a browser
+	`<a>x</a /="><img title=" data-x="@@">`, `<p>x</p /="><script>" data-x="@@">`,
 	// a DOCTYPE ends at its first '>'
 	`<!DOCTYPE html <p title="><script>@@</script>">`, `<!doctype <a href='><style>@@</style>'>`,
 	// loop bodies that end in another context than they start in, or glue names on re-entry
@@ -355,7 +358,7 @@ var codeShapes = []string{
 var rawnestShape = regexp.MustCompile(`^<(iframe|noscript|xmp|noembed|noframes)>(<[a-z]+ [a-z]+=["']|<!-- )</(iframe|noscript|xmp|noembed|noframes)>`)
 
 func genCode(t *rapid.T) CodeCase {
-	c := CodeCase{Shape: rapid.SampledFrom(codeShapes).Draw(t, "shape"), Wrap: rapid.SampledFrom([]string{"plain", "plain", "if", "range", "with", "helper", "print", "var", "else", "rec", "recbal", "reserved"}).Draw(t, "wrap")}
+	c := CodeCase{Shape: rapid.SampledFrom(codeShapes).Draw(t, "shape"), Wrap: rapid.SampledFrom([]string{"plain", "plain", "if", "range", "with", "helper", "print", "var", "else", "rec", "recbal", "reserved", "htmlfunc"}).Draw(t, "wrap")}
 	c.Payload = evid.BStr(rapid.SampledFrom(payloads).Draw(t, "p1") + rapid.SampledFrom(payloads).Draw(t, "p2"))
 	if rapid.IntRange(0, 5).Draw(t, "typed") == 0 {
 		c.Typed = rapid.SampledFrom(tx.TypeNames).Draw(t, "type")
@@ -421,6 +424,9 @@ func (c CodeCase) render() (string, map[string]interface{}) {
 			pre += `{{define "` + n + `"}}{{.}}{{end}}{{template "` + n + `" "x"}}`
 		}
 		act = `{{template "h" .V}}`
+	case "htmlfunc":
+		// the program has registered a function of its own under the name of a predefined escaper (K-funcsoverride)
+		act = `{{.V | html}}`
 	case "print":
 		act = `{{.V | print}}`
 	case "var":
@@ -461,6 +467,9 @@ func checkCode(c CodeCase) evid.Outcome {
 	text, data := c.render()
 	o := evid.Outcome{}
 	t, perr := tx.Parse(text)
+	if c.Wrap == "htmlfunc" {
+		t, perr = tx.ParseFuncs(text, template.FuncMap{"html": func(s interface{}) interface{} { return s }})
+	}
 	if perr != nil {
 		o.Skip = true
 		o.Labels = append(o.Labels, "parse-error")
@@ -479,30 +488,16 @@ func checkCode(c CodeCase) evid.Outcome {
 		if strings.Contains(c.Shape, "<s{{") || strings.Contains(c.Shape, "<scr{{") || strings.Contains(c.Shape, " hr{{") || strings.Contains(c.Shape, " on{{") {
 			v.Finding = "F-namesplit-regressed"
 		}
-		if c.Wrap == "helper" && strings.Count(c.Shape, "@@") >= 2 && (strings.Contains(c.Shape, `"java@@`) || strings.Contains(c.Shape, `?q=@@`)) {
-			// K-mangle proper: the two call sites differ in the static text in front of the call (which cannot be
-			// part of the derived-template name); sites that differ in the link rel value or in alternative element
-			// / attribute names get copies of their own since F-manglekey
-			// attribution by repair: with the helper calls inlined the violation must be gone
-			in := c
-			in.Wrap = "plain"
-			ltext, ldata := in.render()
-			gone := true
-			if lt, e := tx.Parse(ltext); e == nil {
-				lout, _ := tx.Exec(lt, ldata)
-				if locate(lout) != "" {
-					gone = false
-				}
-			}
-			if gone {
-				v.Finding = "K-mangle"
-			}
-		}
+		// (two call sites of one helper that differ in the class of the static text in front of the call - start of the
+		// URL, after "java", after "?q=" - get copies of their own since F-prefixclass: no attribution any more)
 		if strings.Contains(c.Shape, `{{.R}}`) {
 			v.Finding = "F-reldyn-regressed"
 		}
 		if rawnestShape.MatchString(c.Shape) {
 			v.Finding = "K-rawnest"
+		}
+		if c.Wrap == "htmlfunc" {
+			v.Finding = "K-funcsoverride"
 		}
 		if strings.Contains(c.Shape, `rel="icon{{template "hq"`) {
 			v.Finding = "K-mangle"
@@ -665,31 +660,6 @@ func checkScheme(c SchemeCase) evid.Outcome {
 		}
 	}
 	v := evid.Viol("%s\ntemplate: %q\ndata: %v\noutput: %q", msg, text, data, out)
-	// K-mangle: attribution by repair - inline the helper calls; if the violation disappears it is the helper reuse
-	nh := 0
-	inl := c
-	inl.Pieces = append([]Piece{}, c.Pieces...)
-	for i, p := range inl.Pieces {
-		if p.How == "helper" {
-			nh++
-			inl.Pieces[i].How = "plain"
-		}
-	}
-	if nh >= 2 {
-		gone := true
-		ltext, ldata := inl.render(false)
-		if lt, e := tx.Parse(ltext); e == nil {
-			if lout, e := tx.Exec(lt, ldata); e == nil {
-				if la, ok := attrOf(lout, c.Elem, c.Attr); ok && jsURL(c.Elem, la) != "" {
-					gone = false
-				}
-			}
-		}
-		if gone {
-			v.Finding = "K-mangle"
-			return v
-		}
-	}
 	// K-adjacent: every action in a URL attribute is sanitized as a whole URL. Signature: the first non-empty
 	// piece of the value is untrusted and no untrusted piece is a javascript: URL by itself, i.e. the scheme only
 	// arises from concatenating that piece with what follows. (A static first piece is the prefix validator's job.)
@@ -887,7 +857,7 @@ func TestPropScheme(t *testing.T)   { evid.RunProp(t, "scheme", 0.7, genScheme, 
 // TestPropCodeAll: every shape x wrapper x a fixed payload list (deterministic part).
 func TestPropCodeAll(t *testing.T) {
 	shard, n := evid.Shard()
-	wraps := []string{"plain", "if", "else", "range", "with", "helper", "print", "var", "rec", "recbal", "reserved"}
+	wraps := []string{"plain", "if", "else", "range", "with", "helper", "print", "var", "rec", "recbal", "reserved", "htmlfunc"}
 	pls := []string{"", "x", "\" onx=\"", "' onx='", "</script>", "-->", "javascript:alert(1)", "//evil.test/", " ", "\\", ".evil.test/"}
 	var all []CodeCase
 	for _, s := range codeShapes {
